@@ -43,6 +43,8 @@ CONSTANTS
     Serial,      \* BOOLEAN: callers run strictly one after the other (back to back)
     MergedExit,  \* BOOLEAN: see above
     LateClose,   \* BOOLEAN: see above
+    SharedDecoder, \* BOOLEAN: FALSE = pinned client, every read loop incarnation has its own decoder (read-ahead is
+                 \* dropped with it); TRUE = repaired client, one decoder whose buffer survives the loop
     NoRun        \* the empty run ID
 
 ASSUME Cap \in Nat /\ Frag \in BOOLEAN /\ SigRuns \subseteq Runs /\ BadSigRuns \subseteq Runs
@@ -190,7 +192,7 @@ Register(r) ==
               /\ wpc' = IF r \in SigRuns THEN [wpc EXCEPT ![r] = "begin"] ELSE wpc
               /\ IF ~rl
                    THEN /\ rl' = TRUE /\ wg' = wg + 1 + (IF r \in SigRuns THEN 1 ELSE 0)
-                        /\ loop' = [pc |-> "decode", msg |-> NoMsg, buf |-> <<>>, how |-> ""]
+                        /\ loop' = [pc |-> "decode", msg |-> NoMsg, buf |-> loop.buf, how |-> ""]
                    ELSE /\ wg' = wg + (IF r \in SigRuns THEN 1 ELSE 0)
                         /\ UNCHANGED <<rl, loop>>
               /\ cpc' = [cpc EXCEPT ![r] = "sendlock"]
@@ -321,7 +323,7 @@ LoopFailAll ==
     /\ sigch' = [r \in Runs |-> IF entries[r].st # "none" /\ sigch[r] = "open" THEN "closed" ELSE sigch[r]]
     /\ IF loop.how = "exit" /\ MergedExit
          THEN /\ rl' = FALSE /\ wg' = wg - 1
-              /\ loop' = [pc |-> "none", msg |-> NoMsg, buf |-> <<>>, how |-> ""]
+              /\ loop' = [pc |-> "none", msg |-> NoMsg, buf |-> IF SharedDecoder THEN loop.buf ELSE <<>>, how |-> ""]
          ELSE /\ loop' = [loop EXCEPT !.pc = loop.how, !.how = ""]
               /\ UNCHANGED <<rl, wg>>
     /\ UNCHANGED <<cpc, mu, res, rets, wpc, done, clpc, gotsig, wvars, svars>>
@@ -334,7 +336,7 @@ LoopCheck ==
          THEN loop' = [loop EXCEPT !.pc = "decode", !.msg = NoMsg] /\ UNCHANGED <<rl, wg>>
          ELSE IF MergedExit
                 THEN /\ rl' = FALSE /\ wg' = wg - 1
-                     /\ loop' = [pc |-> "none", msg |-> NoMsg, buf |-> <<>>, how |-> ""]
+                     /\ loop' = [pc |-> "none", msg |-> NoMsg, buf |-> IF SharedDecoder THEN loop.buf ELSE <<>>, how |-> ""]
                 ELSE loop' = [loop EXCEPT !.pc = "exit", !.msg = NoMsg] /\ UNCHANGED <<rl, wg>>
     /\ UNCHANGED <<cpc, entries, woken, sigch, mu, res, rets, wpc, done, clpc, gotsig, wvars, svars>>
 
@@ -342,7 +344,7 @@ LoopCheck ==
 LoopExit ==
     /\ loop.pc = "exit" /\ mu = Free
     /\ rl' = FALSE /\ wg' = wg - 1
-    /\ loop' = [pc |-> "none", msg |-> NoMsg, buf |-> <<>>, how |-> ""]
+    /\ loop' = [pc |-> "none", msg |-> NoMsg, buf |-> IF SharedDecoder THEN loop.buf ELSE <<>>, how |-> ""]
     /\ UNCHANGED <<cpc, entries, woken, sigch, mu, res, rets, wpc, done, clpc, gotsig, wvars, svars>>
 
 (***************************************************************************)
@@ -708,7 +710,7 @@ Faithful ==
         /\ (beh[r] \in {"err", "panic"} => res[r].st = "err")
 \* read-ahead is never thrown away (checked where the decoder is dropped: LoopCheck/LoopFailAll/LoopExit
 \* reset loop.buf; this action property says the dropped buffer was empty)
-NoLoss == [][loop'.pc = "none" /\ loop.pc # "none" => loop.buf = <<>>]_vars
+NoLoss == [][loop'.pc = "none" /\ loop.pc # "none" => loop'.buf = loop.buf]_vars
 
 \* ---- C07
 NoCrash == crashed = "no"
